@@ -598,6 +598,11 @@ func (r *Request) executeHandler() {
 
 		var str string
 
+		// A nil *Error carries no error to send; handle it as any other value
+		if e, ok := v.(*Error); ok && e == nil {
+			v = "nil *res.Error"
+		}
+
 		switch e := v.(type) {
 		case *Error:
 			if !r.replied {
